@@ -2,9 +2,11 @@ package main
 
 import (
 	"fmt"
+	"go/constant"
 	"go/types"
 	"regexp"
 	"sort"
+	"strconv"
 	"strings"
 
 	"golang.org/x/tools/go/ssa"
@@ -396,4 +398,190 @@ func (c *Check) lostUpdates(rule string, maps map[string]bool) (int, int) {
 		}
 	}
 	return n, bad
+}
+
+// ---- import-side validators accept every record the running chain writes ----
+
+// staticByteLen: the length of a byte-slice value when it is fixed by its type:
+// common.Hash.Bytes() → 32, common.Address.Bytes() → 20, x[:] of a [N]byte, make([]byte, const).
+func staticByteLen(v ssa.Value) (int64, bool) {
+	switch x := v.(type) {
+	case *ssa.Call:
+		if f := calleeFunc(&x.Call); f != nil && f.Name() == "Bytes" && len(x.Call.Args) == 1 {
+			t := x.Call.Args[0].Type()
+			if pt, ok := t.Underlying().(*types.Pointer); ok {
+				t = pt.Elem()
+			}
+			if at, ok := t.Underlying().(*types.Array); ok {
+				if bt, ok := at.Elem().Underlying().(*types.Basic); ok && bt.Kind() == types.Uint8 {
+					return at.Len(), true
+				}
+			}
+		}
+	case *ssa.Slice:
+		if x.Low == nil && x.High == nil {
+			t := x.X.Type()
+			if pt, ok := t.Underlying().(*types.Pointer); ok {
+				t = pt.Elem()
+			}
+			if at, ok := t.Underlying().(*types.Array); ok {
+				return at.Len(), true
+			}
+		}
+	case *ssa.MakeSlice:
+		if k, ok := x.Len.(*ssa.Const); ok && k.Value != nil {
+			return constant.Int64Val(constant.ToInt(k.Value))
+		}
+	case *ssa.ChangeType:
+		return staticByteLen(x.X)
+	}
+	return 0, false
+}
+
+// importValidatorsAcceptRuntimeRecords: for every repository struct type T whose Validate method is reachable
+// from an InitGenesis, and every record of type T the running chain builds (a local T whose fields are set to
+// constants / values of statically known length and which is then written to a keeper collection), T.Validate
+// must have a success path consistent with those known fields. Otherwise a state exported while such a record
+// exists cannot be imported.
+func (c *Check) importValidatorsAcceptRuntimeRecords(rule string) {
+	p := c.p
+	greach, _ := p.CG().Reach(p.Contexts().Genesis, nil)
+	validators := map[*types.TypeName]*ssa.Function{}
+	for f := range greach {
+		if f.Name() != "Validate" || f.Signature.Recv() == nil || len(f.Blocks) == 0 || p.isGenerated(f) {
+			continue
+		}
+		if nt := namedOf(f.Signature.Recv().Type()); nt != nil {
+			if _, isStruct := nt.Underlying().(*types.Struct); isStruct {
+				validators[nt.Obj()] = f
+			}
+		}
+	}
+	lenRe := regexp.MustCompile(`^\((\d+) (==|!=) len\(\$0\.(\w+)\)\)$`)
+	eqRe := regexp.MustCompile(`^\((\$0\.(\w+)|(\w+)) (==|!=) (\$0\.(\w+)|(\w+))\)$`)
+	nRec, nBad := 0, 0
+	for _, f := range p.ProdFuncs {
+		if p.isGenerated(f) || len(f.Blocks) == 0 || greach[f] {
+			continue
+		}
+		key := FuncKey(f)
+		if strings.Contains(key, "/module.") || strings.HasPrefix(key, "cmd/") || strings.Contains(key, "/types.") {
+			continue // genesis / tooling / constructors
+		}
+		r := p.R(f)
+		for _, b := range f.Blocks {
+			for _, in := range b.Instrs {
+				a, ok := in.(*ssa.Alloc)
+				if !ok {
+					continue
+				}
+				nt := namedOf(a.Type())
+				if nt == nil {
+					continue
+				}
+				vf := validators[nt.Obj()]
+				if vf == nil {
+					continue
+				}
+				// a record built here: never assigned as a whole from elsewhere
+				if len(r.wholeStores[a]) > 0 {
+					continue
+				}
+				knownLen := map[string]int64{}
+				knownConst := map[string]string{}
+				for _, st := range r.fieldStores[a] {
+					fa, ok := st.Addr.(*ssa.FieldAddr)
+					if !ok || fa.X != ssa.Value(a) {
+						continue
+					}
+					name := fieldName(fa.X.Type(), fa.Field)
+					if n, ok := staticByteLen(st.Val); ok {
+						knownLen[name] = n
+					}
+					if k, ok := st.Val.(*ssa.Const); ok {
+						knownConst[name] = r.E(k)
+					}
+				}
+				if len(knownLen) == 0 {
+					continue
+				}
+				// is the record handed to a keeper collection?
+				stored := false
+				for _, s := range p.StoreSites(f) {
+					if s.IsWrite() {
+						for _, arg := range s.Args {
+							if strings.Contains(r.E(arg), "new("+typeShort(nt)+")") || rootsAt(arg, a) {
+								stored = true
+							}
+						}
+					}
+				}
+				if !stored {
+					continue
+				}
+				nRec++
+				c.touch(f)
+				c.touch(vf)
+				avoid := map[edgeKey]bool{}
+				for _, ef := range p.EdgeFacts(vf) {
+					if m := lenRe.FindStringSubmatch(ef.Fact); m != nil {
+						if l, ok := knownLen[m[3]]; ok {
+							want, _ := strconv.ParseInt(m[1], 10, 64)
+							if (m[2] == "==") != (l == want) {
+								avoid[ef.Key()] = true
+							}
+						}
+						continue
+					}
+					if m := eqRe.FindStringSubmatch(ef.Fact); m != nil {
+						field, konst := m[2], m[7]
+						if field == "" {
+							field, konst = m[6], m[3]
+						}
+						if field == "" || konst == "" {
+							continue
+						}
+						if kv, ok := knownConst[field]; ok {
+							if (m[4] == "==") != (kv == konst) {
+								avoid[ef.Key()] = true
+							}
+						}
+					}
+				}
+				if t, _ := (&PathSearch{Fn: vf, AvoidEdges: avoid, IsTarget: successTargets(vf)}).Find(); t == nil {
+					nBad++
+					var kl []string
+					for k, v := range knownLen {
+						kl = append(kl, fmt.Sprintf("len(%s)=%d", k, v))
+					}
+					for k, v := range knownConst {
+						kl = append(kl, k+"="+v)
+					}
+					sort.Strings(kl)
+					c.Violated(rule, "import-rejects-runtime-record "+typeShort(nt)+" @ "+key, p.InstrPos(a), "the running chain stores a "+typeShort(nt)+" with "+strings.Join(kl, ", ")+", but "+FuncKey(vf)+" (run by InitGenesis on every imported record) has no success path for such a record: a state exported while it exists cannot be imported")
+				}
+			}
+		}
+	}
+	if nBad == 0 {
+		c.Held(rule, "import-validators-accept-runtime-records", "", fmt.Sprintf("%d records built at run time with fields of statically known length, checked against %d Validate methods reachable from InitGenesis", nRec, len(validators)))
+	}
+}
+
+// rootsAt: v is (a load of) alloc a.
+func rootsAt(v ssa.Value, a *ssa.Alloc) bool {
+	for {
+		switch x := v.(type) {
+		case *ssa.UnOp:
+			v = x.X
+		case *ssa.Alloc:
+			return x == a
+		case *ssa.MakeInterface:
+			v = x.X
+		case *ssa.ChangeType:
+			v = x.X
+		default:
+			return false
+		}
+	}
 }
